@@ -23,7 +23,7 @@ class Hooks:
         self.finalize_seam = False  # True: _finalize_render_data_ is a fault seam ("finalize")
 
 
-def frame_output(frame, size, char, duration):
+def frame_output(frame, size, char, duration, shift=0):
     w, h = size
     lines = []
     for y in range(h):
@@ -31,7 +31,7 @@ def frame_output(frame, size, char, duration):
         if w:
             text = char + text[1:]
         lines.append("\x1b[38;2;%d;%d;%dm%s\x1b[0m"
-                     % (frame % 256, duration % 256, ord(char) % 256, text))
+                     % (frame % 256, duration % 256, (ord(char) + shift) % 256, text))
     return "\n".join(lines)
 
 
@@ -87,6 +87,7 @@ def make(ti_renderable, hooks):
             if k is not None:
                 k.seam("render", rd.frame_offset)
             char = render_args[SimRenderable].char
+            shift = render_args[SimRenderable].shift
             size = rd.size
             if not self.animated:
                 frame_no, duration = 0, 0
@@ -120,10 +121,12 @@ def make(ti_renderable, hooks):
                     if c:
                         k.advance(c)
                 k.seam_after("render")
-            return Frame(frame_no, duration, size, frame_output(frame_no, size, char, duration))
+            return Frame(frame_no, duration, size,
+                         frame_output(frame_no, size, char, duration, shift))
 
     class SimArgs(R.ArgsNamespace, render_cls=SimRenderable):
         char: str = "#"
+        shift: int = 0      # int-valued: -1 and -2 are distinct values with equal hashes
 
     class SimData(R.DataNamespace, render_cls=SimRenderable):
         token: int
